@@ -1174,4 +1174,8 @@ lemma top_accept (u : ℚ) (n n' : ℕ) (hn : 0 < n) :
   tauto
 
 end Link2
+lemma Orb.body_s_congr (o : Orb) (b : Bool) (st st' : OSt) (h1 : st.lo = st'.lo) (h2 : st.j = st'.j) :
+    (o.body b st).s = (o.body b st').s := by
+  simp only [Orb.body, h1, h2]
+
 end CuqiVerif.C08
